@@ -6,6 +6,14 @@ From L2 Require Import Model Base Own Jobs.
 #[global] Unset Lia Cache.
 
 #[export] Instance waker_eq_dec : EqDecision waker. Proof. solve_decision. Defined.
+#[export] Instance fprim_eq_dec : EqDecision fprim. Proof. solve_decision. Defined.
+#[export] Instance jstate_eq_dec : EqDecision jstate. Proof. solve_decision. Defined.
+#[export] Instance job_eq_dec : EqDecision job. Proof. solve_decision. Defined.
+#[export] Instance fuse_eq_dec : EqDecision fuse. Proof. solve_decision. Defined.
+#[export] Instance cop_eq_dec : EqDecision cop. Proof. solve_decision. Defined.
+#[export] Instance preg_eq_dec : EqDecision preg. Proof. solve_decision. Defined.
+#[export] Instance kont_eq_dec : EqDecision kont. Proof. solve_decision. Defined.
+#[export] Instance frame_eq_dec : EqDecision frame. Proof. solve_decision. Defined.
 
 Definition posb (n : nat) : bool := match n with 0 => false | S _ => true end.
 Definition is_wake (w : waker) (fr : frame) : bool := match fr with FWake w' => bool_decide (w' = w) | _ => false end.
